@@ -1,6 +1,7 @@
 package props
 
 import (
+	"verif/fold"
 	"fmt"
 	"os"
 	"strings"
@@ -97,7 +98,7 @@ func project(t *sq.Table, cols []string) (rows [][]sq.Val, ok bool) {
 	for i, cn := range cols {
 		k := t.ColIndex(cn)
 		if k < 0 {
-			l := strings.ToLower(cn)
+			l := fold.Lower(cn)
 			if !t.WithoutRowid && (l == "rowid" || l == "oid" || l == "_rowid_") {
 				k = -1
 			} else {
@@ -145,9 +146,9 @@ func drawCols(s *sim.Src, t *sq.Table) []string {
 			cn := names[s.Draw(len(names), "col")]
 			if s.Chance(1, 6, "case") {
 				if s.Chance(1, 2, "upper") {
-					cn = strings.ToUpper(cn)
+					cn = fold.Upper(cn)
 				} else {
-					cn = strings.ToLower(cn)
+					cn = fold.Lower(cn)
 				}
 			}
 			out = append(out, cn)
